@@ -301,6 +301,20 @@ def check_stop_rule(F, run):
                 run.check(good, "R9.5", path, "carries-state", F.loc(b, loop), "after a non-converged rule prev_area/prev_err are %s, expected (area, |area − prev_area|)" % cur)
                 contp = True
         run.check(okp and contp, "R9.5", path, "both-outcomes", F.loc(b, loop), "the loop body has no success path or no continue path")
+        # the first rule has nothing to agree with: the initial prev_err must not already count as an agreement (for every positive tolerance)
+        try:
+            pre = paths.explore(F, b, setup=c07.preset_all(b, {"tol": sp.Symbol("tol", positive=True)}), stop_at=st, interp_cls=GaussLoop)
+            e0s = []
+            for p0 in pre:
+                if p0.fell_through:
+                    e0s.append({nm: p0.interp.env.get(i) for i, nm in p0.interp.names.items()}.get("prev_err"))
+            Tp = sp.Symbol("tol", positive=True)
+            good0 = bool(e0s) and all(e0 is not None and logic.entails(sp.true, sp.Ge(sp.simplify(e0 - Tp), 0)) for e0 in e0s)
+            run.check(good0, "R9.5", path, "first-rule-cannot-succeed", F.loc(b),
+                      "prev_err starts as %s: not >= tol for every positive tolerance, so the two-consecutive-agreements test can pass on the first rule alone "
+                      "(one evaluation; e.g. Ok(0) for an integrand that vanishes at the midpoint)" % (e0s,), sample="%s: initial prev_err >= tol" % path.split("::")[-1])
+        except sym.Unsupported as u:
+            run.broken("R9.5", path, "initial-state", F.loc(b), str(u))
         tail = peel(b["body"].get("expr") or {})
         run.check(tail.get("k") == "Call" and (callee(tail) or "").endswith("Err"), "R9.5", path, "exhausted-gives-err", F.loc(b), "exhausting the table does not return Err")
 
